@@ -67,7 +67,7 @@ class DirectoryMatcher:
         # The rule governs the directory itself and what is below it, not every path that
         # merely starts with the same characters ("src" must not govern "src2/x.py")
         if path_str == dir_path or path_str.startswith(dir_path.rstrip("/") + "/"):
-            depth = len(dir_path.split("/"))
+            depth = len(dir_path.rstrip("/").split("/"))  # "src/" is as deep as "src"
             return True, depth
         return False, -1
 
